@@ -548,6 +548,11 @@ def engine_config(p, root, k, engine, flags):
     return out
 
 
+def _pairs(x):
+    """dict or sequence of 2-sequences -> list of tuples (what urlencode accepts)."""
+    return [tuple(kv) for kv in (x.items() if isinstance(x, dict) else x)]
+
+
 def file_state(path):
     try:
         st = os.stat(path)
@@ -595,14 +600,13 @@ class Handle:
             url = r["path"]
             q = r.get("query")
             if q:
-                url += "?" + (q if isinstance(q, str) else
-                              urllib.parse.urlencode(list(q.items()) if isinstance(q, dict) else q, doseq=True))
+                url += "?" + (q if isinstance(q, str) else urllib.parse.urlencode(_pairs(q), doseq=True))
             hdrs = r.get("headers") or []
             hdrs = [[a, b] for a, b in (hdrs.items() if isinstance(hdrs, dict) else hdrs)]
             body = r.get("body")
             if r.get("form") is not None:
                 f_ = r["form"]
-                body = urllib.parse.urlencode(list(f_.items()) if isinstance(f_, dict) else f_, doseq=True)
+                body = urllib.parse.urlencode(_pairs(f_), doseq=True)
                 if not any(a.lower().lstrip("=") == "content-type" for a, _ in hdrs):
                     hdrs.append(["Content-Type", "application/x-www-form-urlencoded"])
             elif body is not None and not any(a.lower().lstrip("=") == "content-type" for a, _ in hdrs):
@@ -653,8 +657,10 @@ def write_main(h, pairs):
         f.write(MAIN_HEAD % {"imports": "\n".join(imports), "registrations": "\n".join(regs)})
 
 
-_FAIL_RE = re.compile(r"p(\d+)/(routes|auth)_(\w+)")
-_FAILK_RE = re.compile(r"p(\d+)/(ctlb?|types)\b")
+# a compiler diagnostic is located in the package its line starts with ("# verifproj/p3/routes_gin" header
+# or "p3/routes_gin/routes.go:12:3: ..."); text later in the line only mentions other packages
+_FAIL_RE = re.compile(r"^(?:# )?(?:%s/)?p(\d+)/(routes|auth)_([a-z]+)\b" % MODNAME)
+_FAILK_RE = re.compile(r"^(?:# )?(?:%s/)?p(\d+)/(ctlb?|types)(?:/|\s|$)" % MODNAME)
 
 
 def attribute_failures(text, pairs):
@@ -663,9 +669,11 @@ def attribute_failures(text, pairs):
     cur = None
     for ln in text.splitlines():
         hit = set()
-        for m in _FAIL_RE.finditer(ln):
+        m = _FAIL_RE.match(ln)
+        if m:
             hit.add((int(m.group(1)), m.group(3)))
-        for m in _FAILK_RE.finditer(ln):
+        m = _FAILK_RE.match(ln)
+        if m:       # a shared package of project k is broken: none of its routers can be built
             for (k, e) in pairs:
                 if k == int(m.group(1)):
                     hit.add((k, e))
